@@ -3,6 +3,8 @@ package main
 import (
 	"go/token"
 	"go/types"
+	"sort"
+	"strings"
 
 	"golang.org/x/tools/go/ssa"
 )
@@ -55,6 +57,11 @@ func (p *Prog) backwardReaches(v ssa.Value, target func(ssa.Value) bool) bool {
 				}
 				if fv, ok := root.(*ssa.FreeVar); ok {
 					return walk(fv, depth+1)
+				}
+				switch root.(type) {
+				case *ssa.Extract, *ssa.Call, *ssa.Phi, *ssa.TypeAssert:
+					// load through a pointer that is itself a computed value: depends on that value
+					return walk(root, depth+1)
 				}
 				return false // non-local memory
 			}
@@ -287,4 +294,193 @@ func (p *Prog) globalInitNonNil(g *ssa.Global) bool {
 		}
 	}
 	return n == 1 && okInit
+}
+
+// ---- path-sensitive facts over strictly pure conditions -------------------------------------------------------------
+
+// strictPure: an expression built only from parameters (not dereferenced), constants, len/cap of slice parameters,
+// arithmetic, comparisons and conversions. Its value cannot change during one invocation, so two evaluations of the same
+// expression (go/ssa has no CSE) agree.
+func (p *Prog) strictPure(v ssa.Value, d int) bool {
+	if d > 10 {
+		return false
+	}
+	v = p.origin(v)
+	switch x := v.(type) {
+	case *ssa.Parameter, *ssa.Const:
+		return true
+	case *ssa.BinOp:
+		return p.strictPure(x.X, d+1) && p.strictPure(x.Y, d+1)
+	case *ssa.Convert:
+		return p.strictPure(x.X, d+1)
+	case *ssa.UnOp:
+		return x.Op != token.MUL && x.Op != token.ARROW && p.strictPure(x.X, d+1)
+	case *ssa.Call:
+		if b := builtinName(&x.Call); b == "len" || b == "cap" {
+			_, isPar := p.origin(x.Call.Args[0]).(*ssa.Parameter)
+			return isPar
+		}
+	}
+	return false
+}
+
+type pathFact struct {
+	cond  ssa.Value
+	truth bool
+}
+
+// disjunct is one path class: the pure conditions known on it.
+type disjunct map[string]pathFact
+
+func (d disjunct) key() string {
+	ks := make([]string, 0, len(d))
+	for k, f := range d {
+		if f.truth {
+			ks = append(ks, k+"=T")
+		} else {
+			ks = append(ks, k+"=F")
+		}
+	}
+	sort.Strings(ks)
+	return strings.Join(ks, ";")
+}
+
+const maxDisjuncts = 24
+
+// purePathFacts computes, per block, the disjuncts of pure-condition facts holding on entry. Contradictory path
+// classes (the same pure condition both true and false) are infeasible and dropped.
+func (p *Prog) purePathFacts(fn *ssa.Function) map[*ssa.BasicBlock][]disjunct {
+	if p.pathFactCache == nil {
+		p.pathFactCache = map[*ssa.Function]map[*ssa.BasicBlock][]disjunct{}
+	}
+	if r, ok := p.pathFactCache[fn]; ok {
+		return r
+	}
+	in := map[*ssa.BasicBlock][]disjunct{}
+	if len(fn.Blocks) == 0 {
+		return in
+	}
+	in[fn.Blocks[0]] = []disjunct{{}}
+	edgeFact := func(from, to *ssa.BasicBlock) (string, pathFact, bool) {
+		c := ifCond(from)
+		if c == nil || from.Succs[0] == from.Succs[1] {
+			return "", pathFact{}, false
+		}
+		f := normFact(condFact{c, from.Succs[0] == to})
+		if !p.strictPure(f.cond, 0) {
+			return "", pathFact{}, false
+		}
+		return p.pureKey(f.cond), pathFact{f.cond, f.truth}, true
+	}
+	for iter := 0; iter < 50; iter++ {
+		changed := false
+		for _, b := range fn.Blocks {
+			if b == fn.Blocks[0] {
+				continue
+			}
+			seen := map[string]bool{}
+			var nw []disjunct
+			for _, pr := range b.Preds {
+				k, f, has := edgeFact(pr, b)
+				for _, d := range in[pr] {
+					if has {
+						if old, ok := d[k]; ok && old.truth != f.truth {
+							continue // infeasible
+						}
+					}
+					nd := disjunct{}
+					for kk, vv := range d {
+						nd[kk] = vv
+					}
+					if has {
+						nd[k] = f
+					}
+					dk := nd.key()
+					if !seen[dk] {
+						seen[dk] = true
+						nw = append(nw, nd)
+					}
+				}
+			}
+			if len(nw) > maxDisjuncts {
+				// collapse to the facts common to all
+				common := disjunct{}
+				for k, f := range nw[0] {
+					all := true
+					for _, d := range nw[1:] {
+						if g, ok := d[k]; !ok || g.truth != f.truth {
+							all = false
+							break
+						}
+					}
+					if all {
+						common[k] = f
+					}
+				}
+				nw = []disjunct{common}
+			}
+			if !sameDisjuncts(in[b], nw) {
+				in[b] = nw
+				changed = true
+			}
+		}
+		if !changed {
+			break
+		}
+	}
+	p.pathFactCache[fn] = in
+	return in
+}
+
+func sameDisjuncts(a, b []disjunct) bool {
+	if len(a) != len(b) {
+		return false
+	}
+	m := map[string]bool{}
+	for _, d := range a {
+		m[d.key()] = true
+	}
+	for _, d := range b {
+		if !m[d.key()] {
+			return false
+		}
+	}
+	return true
+}
+
+// factsAt returns the feasible path classes at block b, each extended with the (dominance-based) facts that hold at
+// b on every path. A nil result means b is unreachable under the pure conditions.
+func (p *Prog) factsAt(b *ssa.BasicBlock) [][]condFact {
+	dom := dominatingFacts(b)
+	for i := range dom {
+		dom[i] = normFact(dom[i])
+	}
+	ds := p.purePathFacts(b.Parent())[b]
+	if len(ds) == 0 {
+		return [][]condFact{dom}
+	}
+	var out [][]condFact
+	for _, d := range ds {
+		// drop classes contradicted by dominating pure facts
+		ok := true
+		for _, f := range dom {
+			if p.strictPure(f.cond, 0) {
+				if g, has := d[p.pureKey(f.cond)]; has && g.truth != f.truth {
+					ok = false
+				}
+			}
+		}
+		if !ok {
+			continue
+		}
+		fs := append([]condFact{}, dom...)
+		for _, k := range sortedKeys(d) {
+			fs = append(fs, condFact{d[k].cond, d[k].truth})
+		}
+		out = append(out, fs)
+	}
+	if len(out) == 0 {
+		return [][]condFact{dom}
+	}
+	return out
 }
